@@ -369,7 +369,31 @@ def _relation(ctx, F, test):
 
 
 def _raising_ifs(F):
-    return [n for n in own_nodes(F.node) if isinstance(n, ast.If) and any(isinstance(x, ast.Raise) for x in n.body)]
+    """``if G: raise`` guards, including the inverted spelling
+    ``if OK: return`` immediately followed by ``raise`` (-> ``if not OK: raise``)."""
+    out = [n for n in own_nodes(F.node) if isinstance(n, ast.If) and any(isinstance(x, ast.Raise) for x in n.body)]
+    for n in own_nodes(F.node):
+        # `if OK: <no raise> else: raise`
+        if isinstance(n, ast.If) and n not in out and any(isinstance(x, ast.Raise) for x in n.orelse) and not any(isinstance(x, ast.Raise) for b in n.body for x in ast.walk(b)):
+            g = ast.If(test=ast.UnaryOp(op=ast.Not(), operand=n.test), body=list(n.orelse), orelse=[])
+            ast.copy_location(g, n)
+            ast.copy_location(g.test, n.test)
+            out.append(g)
+    for n in own_nodes(F.node):
+        for fld in ("body", "orelse", "finalbody"):
+            blk = getattr(n, fld, None)
+            if not (isinstance(blk, list) and blk and isinstance(blk[0], ast.stmt)):
+                continue
+            for a, b in zip(blk, blk[1:]):
+                if (
+                    isinstance(a, ast.If) and not a.orelse and a.body and isinstance(a.body[-1], (ast.Return, ast.Continue))
+                    and not any(isinstance(x, ast.Raise) for x in ast.walk(a)) and isinstance(b, ast.Raise)
+                ):
+                    g = ast.If(test=ast.UnaryOp(op=ast.Not(), operand=a.test), body=[b], orelse=[])
+                    ast.copy_location(g, a)
+                    ast.copy_location(g.test, a.test)
+                    out.append(g)
+    return out
 
 
 def _order_relation(ctx, sched, add):
